@@ -82,11 +82,25 @@ def run(repo, rep, tier):
     adapter_keys_agree(repo, rep, 'C13.R10', lambda op: 'Associator' in op or 'Reference' in op, 30)
     mp = repo.cls(MAIN, 'MainProvider')
 
+    # the traversal functions and the MainProvider helpers they call (the
+    # subclass closure that the AssocClass / ResultClass filters rest on)
+    reach = set(names.ASSOC_FUNCS)
+    todo = [n for n in names.ASSOC_FUNCS if n in mp.methods]
+    while todo:
+        n = todo.pop()
+        for x in ast.walk(mp.methods[n].node):
+            if isinstance(x, ast.Attribute) and \
+                    isinstance(x.value, ast.Name) and x.value.id == 'self' \
+                    and x.attr in mp.methods and x.attr not in reach and \
+                    x.attr.startswith('_'):
+                reach.add(x.attr)
+                todo.append(x.attr)
+
     def scope(f):
         root = f
         while root.parent is not None:
             root = root.parent
-        return f.file == MAIN and root.name in names.ASSOC_FUNCS
+        return f.file == MAIN and root.name in reach
     names.run_name_rules(repo, rep, r2, r2b, scope)
 
     for nm, full in PAIRS:
